@@ -66,6 +66,9 @@ func (s *Server) referrerGet(repoStr, arg string) http.HandlerFunc {
 				return
 			}
 			if cacheResp, err := s.referrerCache.Get(referrerKey{dig: dig, artifactType: filterAT}); err == nil && page < len(cacheResp) {
+				if filterAT != "" {
+					w.Header().Add(referrerFilterATHeaderKey, referrerFilterATHeaderValue)
+				}
 				if page+1 < len(cacheResp) {
 					next := r.URL
 					q := next.Query()
@@ -105,6 +108,9 @@ func (s *Server) referrerGet(repoStr, arg string) http.HandlerFunc {
 		}
 		// check page cache for digest, two users requesting same referrer list
 		if cacheResp, err := s.referrerCache.Get(referrerKey{dig: d.Digest, artifactType: filterAT}); err == nil {
+			if filterAT != "" {
+				w.Header().Add(referrerFilterATHeaderKey, referrerFilterATHeaderValue)
+			}
 			if page >= len(cacheResp) {
 				page = 0
 			}
